@@ -342,6 +342,70 @@ fn deep_histories(run: &mut Run, oracle: Oracle) {
         }
     }
     let g2c = fam.len() - g2a - g2b;
+    // G2b': the same wrap probes with the distinguishing event BEFORE the n fillers
+    for a in &modev {
+        if !matches!(a, FlatEv::Key(CapsLock | NumpadLock | LShift | RControl | RAltGr, Down) | FlatEv::SetMode(_)) { continue; }
+        for b in &modev {
+            for n in [254usize, 255, 256, 257, 258, 510, 511, 512, 513] {
+                for k in [Key1, A, Numpad7] {
+                    let mut v = vec![FlatEv::Key(k, Down), FlatEv::Key(k, Up), *b];
+                    let opp = match a { FlatEv::Key(kk, Down) => Some(FlatEv::Key(*kk, Up)), FlatEv::SetMode(m) => Some(FlatEv::SetMode(if *m == HandleControl::Ignore { HandleControl::MapLettersToUnicode } else { HandleControl::Ignore })), _ => None };
+                    for i in 0..n {
+                        let lock = matches!(a, FlatEv::Key(CapsLock | NumpadLock, Down));
+                        v.push(if lock || i % 2 == 0 { *a } else { opp.unwrap_or(*a) });
+                    }
+                    v.push(FlatEv::Key(k, Down));
+                    fam.push(v);
+                }
+            }
+        }
+    }
+    // G2d: every cycle of <= 3 events over the 20 modifier events/setters (and of 4 over the 10
+    // Ctrl/Alt/AltGr/Shift ones) repeated 12 times, then every prefix of the cycle + a probe press
+    {
+        let small: Vec<FlatEv> = modev.iter().copied().filter(|f| matches!(f, FlatEv::Key(LControl | RControl | LAlt | RAltGr | LShift, _))).collect();
+        let mut cycles: Vec<Vec<FlatEv>> = Vec::new();
+        for a in &modev { for b in &modev { cycles.push(vec![*a, *b]); for c in &modev { cycles.push(vec![*a, *b, *c]); } } }
+        for a in &small { for b in &small { for c in &small { for d in &small { cycles.push(vec![*a, *b, *c, *d]); } } } }
+        for cyc in &cycles {
+            let body: Vec<FlatEv> = cyc.iter().copied().cycle().take(cyc.len() * 12).collect();
+            for p in 0..cyc.len() {
+                let mut v = body.clone();
+                v.extend(cyc[..p].iter().copied());
+                for k in [Q, Key1, Numpad7] {
+                    v.push(FlatEv::Key(k, Down));
+                    v.push(FlatEv::Key(k, Up));
+                }
+                v.push(FlatEv::Key(NumpadLock, Down));
+                fam.push(v);
+            }
+        }
+    }
+    // G2e: N distinct keys held at once, an event X, the N keys released (same / reverse order)
+    {
+        let all: Vec<KeyCode> = ALL_KEYS.iter().copied().filter(|k| !mm::is_modifier_key(*k)).collect();
+        for n in (1..=20usize).chain([31, 32, 33, 63, 64, 65, 100, all.len()]) {
+            let n = n.min(all.len());
+            for x in modev.iter().take(18) {
+                for rev in [false, true] {
+                    let mut v: Vec<FlatEv> = all[..n].iter().map(|k| FlatEv::Key(*k, Down)).collect();
+                    v.push(*x);
+                    let mut ups: Vec<FlatEv> = all[..n].iter().map(|k| FlatEv::Key(*k, Up)).collect();
+                    if rev { ups.reverse(); }
+                    v.extend(ups);
+                    v.push(FlatEv::Key(A, Down));
+                    v.push(FlatEv::Key(NumpadLock, Down));
+                    fam.push(v);
+                }
+            }
+        }
+        // every key of the keyboard down at once (modifiers included), then all up
+        let mut v: Vec<FlatEv> = ALL_KEYS.iter().map(|k| FlatEv::Key(*k, Down)).collect();
+        v.extend(ALL_KEYS.iter().map(|k| FlatEv::Key(*k, Up)));
+        v.push(FlatEv::Key(A, Down));
+        fam.push(v);
+    }
+    let g2d = fam.len() - g2a - g2b - g2c;
     use rayon::prelude::*;
     let start = HandleControl::MapLettersToUnicode;
     let bad: Vec<usize> = fam.par_iter().enumerate().filter_map(|(i, v)| match history_dev(v, start, oracle) { Ok(None) => None, _ => Some(i) }).collect();
@@ -351,7 +415,7 @@ fn deep_histories(run: &mut Run, oracle: Oracle) {
         eval_history(run, &fam[*i], start, oracle);
     }
     run.total_violating_cases += bad.len().saturating_sub(8) as u64;
-    run.part("deep_history_families", json!({"long_typing_with_modifier_held(3000 presses)": g2a, "wrap_probes K.A^n.B.K": g2b, "S.A^i.B^j.probe": g2c, "events_total": fam.iter().map(|v| v.len() as u64).sum::<u64>(), "failing": bad.len()}));
+    run.part("deep_history_families", json!({"long_typing_with_modifier_held(3000 presses)": g2a, "wrap_probes K.A^n.B.K": g2b, "S.A^i.B^j.probe": g2c, "wrap probes (event first), cycles of <=4 events x12 + prefix + probe, N keys held at once": g2d, "events_total": fam.iter().map(|v| v.len() as u64).sum::<u64>(), "failing": bad.len()}));
 }
 
 /// Pipeline layer: operation sequences (bits, words, bytes, clear, events) through ONE Keyboard
@@ -575,7 +639,7 @@ fn random_histories(run: &mut Run, oracle: Oracle, cases: u32, salt: u64) {
 }
 
 pub fn c04(run: &mut Run) {
-    run.rule = "Exhaustive: for each of the 512 modifier records x 2 Ctrl modes a fresh Keyboard is driven there by a canonical witness history (arrival confirmed through get_modifiers), then each of the 124 keys x {Down, Up, SingleShot} is applied and get_modifiers() is compared with a nine-flag reference model written from the property statement; on ordinary presses an argument-encoding layout reveals the modifier record handed to the layout (Keyboard and bare EventDecoder), which must be the same record. State exploration: breadth-first search over every key event and configuration setter, states named by the Debug rendering the crate derives for Keyboard/EventDecoder (so hidden fields steer the search too), every replayed history checked against the model. Keyboard pipeline layer: the Keyboard-level deep families (two-phase repetition grammar over bits/words/bytes/clear/events, noisy-line workloads of 6000 frames) through one Keyboard object with every decoded event processed, the oracle applied to the events actually decoded. Deep-history families: long typing (3000 presses over 1-40 distinct keys) with a modifier held; wrap probes K A^n B K with n = 254..258 over all modifier events and setters; two-phase grammar S A^i B^j probe over a 30-symbol alphabet. All ordered pairs of events from the initial state (372 x 372 x 2 modes) and pumping (every event repeated 700 times, typical patterns repeated for >= 70,000 events) look for state outside the record. Random: event histories (<= 200 ops, typematic repeats of ordinary and modifier keys, 48% on the nine modifier/lock keys, Pause idiom, mode and layout changes) checked after every event, shrunk by proptest. Non-trivial transition = event on a modifier/lock key, or source state with >= 2 flags set besides NumLock (exhaustive: distinct by construction); non-trivial history = contains a Pause idiom or >= 3 distinct modifier keys (distinct by fingerprint).".into();
+    run.rule = "Exhaustive: for each of the 512 modifier records x 2 Ctrl modes a fresh Keyboard is driven there by a canonical witness history (arrival confirmed through get_modifiers), then each of the 124 keys x {Down, Up, SingleShot} is applied and get_modifiers() is compared with a nine-flag reference model written from the property statement; on ordinary presses an argument-encoding layout reveals the modifier record handed to the layout (Keyboard and bare EventDecoder), which must be the same record. State exploration: breadth-first search over every key event and configuration setter, states named by the Debug rendering the crate derives for Keyboard/EventDecoder (so hidden fields steer the search too), every replayed history checked against the model. Keyboard pipeline layer: the Keyboard-level deep families (two-phase repetition grammar over bits/words/bytes/clear/events, noisy-line workloads of 6000 frames) through one Keyboard object with every decoded event processed, the oracle applied to the events actually decoded. Deep-history families: long typing (3000 presses over 1-40 distinct keys) with a modifier held; wrap probes K A^n B K with n = 254..258 over all modifier events and setters; two-phase grammar S A^i B^j probe over a 30-symbol alphabet; every cycle of <= 3 modifier events/setters (and of 4 over Ctrl/Alt/AltGr/Shift) repeated 12 times followed by every prefix of the cycle and probe presses; N = 1..20, 31-33, 63-65, 100, all distinct keys held at once, an event, the keys released. All ordered pairs of events from the initial state (372 x 372 x 2 modes) and pumping (every event repeated 700 times, typical patterns repeated for >= 70,000 events) look for state outside the record. Random: event histories (<= 200 ops, typematic repeats of ordinary and modifier keys, 48% on the nine modifier/lock keys, Pause idiom, mode and layout changes) checked after every event, shrunk by proptest. Non-trivial transition = event on a modifier/lock key, or source state with >= 2 flags set besides NumLock (exhaustive: distinct by construction); non-trivial history = contains a Pause idiom or >= 3 distinct modifier keys (distinct by fingerprint).".into();
     run.assumptions = vec!["get_modifiers() exposes the complete modifier record, and all 512 values are reached, so the enumerated relation is the complete transition relation of the modifier state; independence from state outside the record is attacked by the random layer".into()];
     exhaustive_transitions(run, Oracle::Mods);
     pairs_and_pumping(run, Oracle::Mods);
